@@ -145,7 +145,7 @@ theorem slice_negative_step (s : Stack) (hst : 0 < s.st) (a b c : Option Int) (h
   have hneg : s.st * c.getD 1 < 0 := Int.mul_neg_of_pos_of_neg hst hc
   split
   · left; rfl
-  · right; first | rfl | rw [if_pos hneg]
+  · right; rfl
 
 example : Stack.sliceFrames ⟨0, 6, 1, ⟨0, 5, 0, 4⟩⟩ (some 4) (some 1) (some (-1)) = .error .reverse := by decide
 example : Stack.sliceFrames ⟨0, 6, 1, ⟨0, 5, 0, 4⟩⟩ (some 1) (some 4) (some (-1)) = .error .empty := by decide
@@ -339,6 +339,16 @@ theorem F2_witness :
 example : (Stack.cropPixels ⟨0, 6, 2, ⟨0, 5, 0, 4⟩⟩ (some 1) (some 3) none none).toOption.map Stack.frames
       = some [0, 2, 4] := by decide
 
+/-! ## Finding F9: a tether whose left end was cropped away wraps around in `to_kymo`, kernel-checked -/
+
+/-- Image of 6 rows × 10 columns, tether from `(1, 2)` to `(8, 2)`, then `crop_by_pixels(4, None, None, None)`: the
+    processed ends are `(-3, 2)` and `(4, 2)`.  `_kymo_from_image_stack` hands `xmin = -3` to `crop_by_pixels`,
+    where it is read as a negative index (`-3 + 6 = 3`): the kymograph shows columns 7–8 of the raw image
+    instead of the part 4–8 of the tether row that lies inside the cropped image. -/
+theorem F9_witness :
+    (Stack.kymoStack ⟨0, 3, 1, ⟨4, 10, 0, 6⟩⟩ (-3) 2 4 2 0).toOption.map Stack.roi = some ⟨7, 9, 2, 3⟩ ∧
+    (Stack.kymoStack ⟨0, 3, 1, ⟨4, 10, 0, 6⟩⟩ 0 2 4 2 0).toOption.map Stack.roi = some ⟨4, 9, 2, 3⟩ := by decide
+
 /-! ## ROI re-cropping is NumPy slicing of the current image -/
 
 /-- The ROI lies inside a raw image of `H` rows and `W` columns and is not empty. -/
@@ -450,7 +460,7 @@ theorem legacy_frame_ranges (ts : List (Int × Int)) (hne : ts ≠ []) :
       List.getElem?_eq_getElem (by omega : i < ts.length),
       List.getElem?_eq_getElem (by omega : i + 1 < ts.length)]
     rfl
-  · rw [List.getElem?_append_right (by rw [hbody]; omega), hbody]
+  · rw [List.getElem?_append_right (Nat.le_of_eq hbody), hbody]
     simp only [Nat.sub_self, List.getElem?_cons_zero, Option.map_some, Option.some.injEq, Prod.mk.injEq,
       true_and]
     by_cases h2 : 2 ≤ ts.length
@@ -464,5 +474,150 @@ theorem legacy_frame_ranges (ts : List (Int × Int)) (hne : ts ≠ []) :
 
 example : legacyRanges [(10, 18), (20, 28), (35, 43)] = some [(10, 20), (20, 35), (35, 50)] := by decide
 example : legacyRanges [(10, 18)] = some [(10, 18)] := by decide
+
+/-! ## Page lookup across files -/
+
+/-- `TiffStack.get_frame`: for `0 ≤ frame < total number of pages` the cumulative-length lookup returns the
+    file `f` and page `p` with `0 ≤ p < lens[f]` and `(pages of the files before f) + p = frame` — the
+    position of `frame` in the concatenation of the files. -/
+theorem get_frame_refines (lens : List Nat) (frame : Int) (h0 : 0 ≤ frame)
+    (h1 : frame < (lens.map Int.ofNat).sum) :
+    ∃ (f : Nat) (p : Int), getFrame lens frame = some (f, p) ∧ f < lens.length ∧ 0 ≤ p ∧
+      p < (lens.getD f 0 : Nat) ∧ ((lens.take f).map Int.ofNat).sum + p = frame := by
+  obtain ⟨f, hf, hfo, hlo, hhi⟩ := firstOne_psums frame lens 0 0 h0 (by omega)
+  refine ⟨f, frame - ((lens.take f).map Int.ofNat).sum, ?_, hf, by omega, by omega, by omega⟩
+  unfold getFrame
+  simp only [cumsum_eq_psums, psums, Int.zero_add, List.map_cons]
+  have hmask : ∀ y ∈ (psums 0 (lens.map Int.ofNat)).map (fun c => if frame < c then (1 : Int) else 0),
+      y = 0 ∨ y = 1 := by
+    intro y hy
+    rw [List.mem_map] at hy
+    obtain ⟨c, _, rfl⟩ := hy
+    split <;> simp
+  rw [if_neg (by omega), argmaxFirst_zero_head _ hmask, hfo]
+  simp only [Nat.zero_add]
+  rw [if_neg (by omega)]
+  have : 1 + f - 1 = f := by omega
+  rw [this, getElem?_psums lens 0 f hf]
+  simp
+
+example : getFrame [3, 2, 1] 4 = some (1, 1) := by decide
+example : getFrame [3, 2, 1] 5 = some (2, 0) := by decide
+
+/-! ## Time-based bounds (ext) -/
+
+/-- Time windows: with start and stop columns both non-decreasing, the index pair
+    `(searchsorted(starts, a), searchsorted(stops, b))` selects exactly the frames that start at or after `a`
+    and whose exposure ends before `b`. -/
+theorem time_window_refines (r : List (Int × Int))
+    (hs : r.Pairwise (fun x y => x.1 ≤ y.1)) (he : r.Pairwise (fun x y => x.2 ≤ y.2)) (a b : Int) :
+    pySlice r (searchsortedLeft (r.map (·.1)) a) (searchsortedLeft (r.map (·.2)) b) =
+      r.filter (fun x => decide (a ≤ x.1) && decide (x.2 < b)) := by
+  unfold searchsortedLeft
+  rw [takeWhile_map_length, takeWhile_map_length]
+  rw [pySlice_nonneg' _ _ _ (by omega) (by omega)]
+  simp only [Int.toNat_natCast]
+  have h1 : r.filter (fun x => decide (a ≤ x.1) && decide (x.2 < b)) =
+      (r.filter (fun x => decide (x.2 < b))).filter (fun x => decide (a ≤ x.1)) := by
+    rw [List.filter_filter]
+  rw [h1]
+  have hf2 : r.filter (fun x => decide (x.2 < b)) = r.take (r.takeWhile ((fun v => decide (v < b)) ∘ (·.2))).length := by
+    rw [filter_eq_takeWhile_of_antitone]
+    · exact takeWhile_eq_take_length _ _
+    · refine he.imp ?_
+      intro x y hxy hy
+      simp only [decide_eq_true_eq] at hy ⊢
+      omega
+  rw [hf2]
+  generalize (r.takeWhile ((fun v => decide (v < b)) ∘ (·.2))).length = j
+  -- now the start column on the prefix
+  have hs' : (r.take j).Pairwise (fun x y => x.1 ≤ y.1) := hs.sublist (List.take_sublist _ _)
+  rw [filter_eq_dropWhile_of_monotone _ _ (by
+    refine hs'.imp ?_
+    intro x y hxy hx
+    simp only [decide_eq_true_eq] at hx ⊢
+    omega)]
+  rw [dropWhile_eq_drop_length]
+  -- count of leading `start < a` in the prefix vs in the whole list
+  have hcount : ∀ (l : List (Int × Int)) (j : Nat),
+      ((l.take j).takeWhile (fun x => !decide (a ≤ x.1))).length =
+        min j (l.takeWhile ((fun v => decide (v < a)) ∘ (·.1))).length := by
+    intro l
+    induction l with
+    | nil => intro j; simp
+    | cons x xs ih =>
+      intro j
+      cases j with
+      | zero => simp
+      | succ j =>
+        rw [List.take_succ_cons]
+        by_cases hx : x.1 < a
+        · rw [List.takeWhile_cons_of_pos (by simp; omega), List.takeWhile_cons_of_pos (by simp; omega)]
+          simp only [List.length_cons, ih j]; omega
+        · rw [List.takeWhile_cons_of_neg (by simp; omega), List.takeWhile_cons_of_neg (by simp; omega)]
+          simp
+  rw [hcount]
+  generalize (r.takeWhile ((fun v => decide (v < a)) ∘ (·.1))).length = i
+  apply List.ext_getElem?
+  intro k
+  simp only [List.getElem?_drop, List.getElem?_take]
+  by_cases h : i ≤ j
+  · rw [Nat.min_eq_right h]
+  · rw [Nat.min_eq_left (by omega), if_neg (by omega), if_neg (by omega)]
+
+example : pySlice [((10 : Int), (18 : Int)), (20, 28), (30, 38), (40, 48)]
+    (searchsortedLeft [10, 20, 30, 40] 20) (searchsortedLeft [18, 28, 38, 48] 39) = [(20, 28), (30, 38)] := by decide
+
+/-! ## Tether geometry at `ℝ` (ext) -/
+
+/-- The two chosen points are mapped onto a horizontal line, left to right, -/
+theorem tether_horizontal (ox oy : ℝ) (p q : Pt ℝ) (h : p.x ≠ q.x ∨ p.y ≠ q.y) :
+    ∃ a b, ((Tether.new ox oy none).withTether p q).endsProcessed = some (a, b) ∧ a.y = b.y ∧ a.x < b.x := by
+  obtain ⟨a, b, hab, hpos, hax, hay, hbx, hby⟩ := fresh_tether ox oy p q h
+  exact ⟨a, b, hab, by rw [hay, hby], by rw [hax, hbx]; linarith⟩
+
+/-- … of unchanged length (the distance of the chosen points) -/
+theorem tether_length (ox oy : ℝ) (p q : Pt ℝ) (h : p.x ≠ q.x ∨ p.y ≠ q.y) :
+    ∃ a b, ((Tether.new ox oy none).withTether p q).endsProcessed = some (a, b) ∧
+      b.x - a.x = Real.sqrt ((q.x - p.x) * (q.x - p.x) + (q.y - p.y) * (q.y - p.y)) := by
+  obtain ⟨a, b, hab, hpos, hax, hay, hbx, hby⟩ := fresh_tether ox oy p q h
+  exact ⟨a, b, hab, by rw [hax, hbx]; ring⟩
+
+/-- … and unchanged midpoint. -/
+theorem tether_midpoint (ox oy : ℝ) (p q : Pt ℝ) (h : p.x ≠ q.x ∨ p.y ≠ q.y) :
+    ∃ a b, ((Tether.new ox oy none).withTether p q).endsProcessed = some (a, b) ∧
+      (a.x + b.x) / 2 = (p.x + q.x) / 2 ∧ (a.y + b.y) / 2 = (p.y + q.y) / 2 := by
+  obtain ⟨a, b, hab, hpos, hax, hay, hbx, hby⟩ := fresh_tether ox oy p q h
+  exact ⟨a, b, hab, by rw [hax, hbx]; ring, by rw [hay, hby]; ring⟩
+
+/-- Cropping afterwards (`with_new_offsets`, new ROI origin `(ox', oy')`) keeps the tether where it is in the raw
+    image: the processed ends just shift by the change of origin. -/
+theorem tether_crop_consistent (t : Tether ℝ) (e : Pt ℝ × Pt ℝ) (he : t.ends = some e)
+    (h : e.1.x ≠ e.2.x ∨ e.1.y ≠ e.2.y) (ox' oy' : ℝ) :
+    ∃ a b a' b', t.endsProcessed = some (a, b) ∧ (t.withNewOffsets ox' oy').endsProcessed = some (a', b') ∧
+      a'.x = a.x + t.offX - ox' ∧ a'.y = a.y + t.offY - oy' ∧
+      b'.x = b.x + t.offX - ox' ∧ b'.y = b.y + t.offY - oy' := by
+  have he' : (t.withNewOffsets ox' oy').ends = some e := by
+    unfold Tether.withNewOffsets
+    rw [he]
+    simp only [Tether.new, Option.map_some]
+    congr 1
+    rcases e with ⟨⟨a, b⟩, ⟨c, d⟩⟩
+    simp
+  have ho : (t.withNewOffsets ox' oy').offX = ox' ∧ (t.withNewOffsets ox' oy').offY = oy' := by
+    unfold Tether.withNewOffsets
+    rw [he]
+    exact ⟨rfl, rfl⟩
+  obtain ⟨a, b, hab, hax, hay, hbx, hby⟩ := ends_processed t e he h
+  obtain ⟨a', b', hab', hax', hay', hbx', hby'⟩ := ends_processed _ e he' h
+  refine ⟨a, b, a', b', hab, hab', ?_, ?_, ?_, ?_⟩
+  · rw [hax', hax, ho.1]; ring
+  · rw [hay', hay, ho.2]; ring
+  · rw [hbx', hbx, ho.1]; ring
+  · rw [hby', hby, ho.2]; ring
+
+/-- Non-vacuity: a 3-4-5 tether. -/
+example : ∃ a b, ((Tether.new (1 : ℝ) 2 none).withTether ⟨0, 0⟩ ⟨3, 4⟩).endsProcessed = some (a, b) ∧ a.y = b.y ∧ a.x < b.x :=
+  tether_horizontal 1 2 ⟨0, 0⟩ ⟨3, 4⟩ (Or.inl (by norm_num))
 
 end Verif.C07
